@@ -224,7 +224,8 @@ def validate_events(ctx, module, cfg, events, shards=8, timeout=1800, env=None, 
     n = len(events)
     if n == 0:
         return []
-    shards = max(1, min(shards, n))
+    workers = max(1, min(shards, n))
+    shards = max(1, min(shards * (6 if ctx.tier == "thorough" and n > 20000 else 1), n))
     cuts = [0]
     for k in range(1, shards):
         c = (n * k) // shards
@@ -250,7 +251,7 @@ def validate_events(ctx, module, cfg, events, shards=8, timeout=1800, env=None, 
                     o["ref"] = a + o["ref"] - 1 if isinstance(o.get("ref"), int) else o.get("ref")
                     obligations.append(o)
         return [(a + r["i"] - 1, r["why"]) for r in res["rejects"]]
-    with ThreadPoolExecutor(max_workers=shards) as ex:
+    with ThreadPoolExecutor(max_workers=workers) as ex:
         parts = list(ex.map(one, range(len(cuts) - 1)))
     return [x for part in parts for x in part]
 
